@@ -95,17 +95,21 @@ def step (s0 : St) (line : String) : St × String :=
       let x := produce s.cfg s.r.n .ok .back
       let r := faultStP s.r x.1 x.2.1
       ({ s with r := r }, s!"produce out={Drv.Prod.outClass x.2.2} " ++ observe s.r.n.prod.store.height r.n r.ws)
-    else if !fail && clock ≠ "same" && armed = "qdel" then
+    else if !fail && clock ≠ "same" && o.str "cancel" ≠ "during-getnext" && armed = "qdel" then
       let x := produceDelFault s.cfg s.r.n
       let r := faultStP s.r x.1 x.2.1
       ({ s with r := r }, s!"produce out={Drv.Prod.outClass x.2.2} " ++ observe s.r.n.prod.store.height r.n r.ws)
     else
-    let op : Flow.Op := if fail then .produceFail else if clock = "same" then .produceSame else .produce
+    let cancel := !fail && clock ≠ "same" && o.str "cancel" = "during-getnext"
+    let aware := o.str "exec" = "ctx"
+    let op : Flow.Op := if fail then .produceFail else if clock = "same" then .produceSame
+                        else if cancel then .produceCancelled aware else .produce
     let out := if fail then (produce s.cfg s.r.n .fail).2.2 else if clock = "same" then (produce s.cfg s.r.n .ok .same).2.2
+               else if cancel then (produce s.cfg s.r.n (cancelEx s.cfg s.r.n aware)).2.2
                else (produce s.cfg s.r.n).2.2
     match Flow.opStep s.cfg s.r op with
     | some r =>
-      match (if !fail && clock ≠ "same" && armed = "blk" then firstSave r.ws 0 else none) with
+      match (if !fail && clock ≠ "same" && !cancel && armed = "blk" then firstSave r.ws 0 else none) with
       | some k =>
         -- the block save fails: the step ends with that error after `k` durable writes, and the error ends the node
         ({ s with r := r, fault := some k }, "produce out=err:store " ++ observe s.r.n.prod.store.height (imageNode r k) (r.ws.take k))
